@@ -146,6 +146,8 @@ pub struct PolicyWeights {
     /// timing kinds: wall, mono, complex
     pub timing_kind: [u32; 3],
     pub min_wait_permille: u32,
+    /// chance that a minimum wait is as long as the type allows (Duration::MAX, i64::MAX seconds, ...)
+    pub huge_min_wait_permille: u32,
     /// policy never varies disable_updates per answer (C17: the mock asserts one value per run)
     pub params_no_disable: bool,
 }
@@ -160,6 +162,7 @@ impl Default for PolicyWeights {
             params_vary: 300,
             timing_kind: [1, 1, 2],
             min_wait_permille: 400,
+            huge_min_wait_permille: 0,
             params_no_disable: false,
         }
     }
@@ -356,7 +359,7 @@ impl Profile {
             probes: false,
             url_variants: false,
             bad_url_permille: 0,
-            metrics_err_permille: 0,
+            metrics_err_permille: 40,
             reboot_version: [3, 1],
             next_delays_s: vec![0, 1, 60, 3600, 18000],
             logging: false,
